@@ -11,6 +11,22 @@ GR = 'rscel/src/compiler/grammar.rs'
 CPR = 'rscel/src/compiler/compiled_prog.rs'
 PR = 'rscel/src/compiler/compiled_prog/preresolved.rs'
 
+AMBIENT = r'''
+// ambient surface WITHOUT contracts: the levels below Unary and CelValue's `==`. Nothing verified here calls them; they are present so
+// that an edit which starts calling one of them is decided against the level's postcondition instead of failing to type-check.
+#[verifier::external_body] pub struct Member { _p: u8 }
+#[verifier::external_body] pub struct Primary { _p: u8 }
+#[verifier::external_body] pub struct Expr { _p: u8 }
+impl FromUnary for Unary { type InputType = Member; #[verifier::external_body] fn from_unary(inner: AstNode<Member>) -> Self { unimplemented!() } }
+impl From<bool> for CelValue { #[verifier::external_body] fn from(val: bool) -> Self { unimplemented!() } }
+impl PartialEq for CelValue { #[verifier::external_body] fn eq(&self, other: &Self) -> bool { unimplemented!() } }
+impl<'l> CelCompiler<'l> {
+    #[verifier::external_body] fn parse_member(&mut self) -> CelResult<(CompiledProg, AstNode<Member>)> { unimplemented!() }
+    #[verifier::external_body] fn parse_primary(&mut self) -> CelResult<(CompiledProg, AstNode<Primary>)> { unimplemented!() }
+    #[verifier::external_body] fn parse_expression(&mut self) -> CelResult<(CompiledProg, AstNode<Expr>)> { unimplemented!() }
+}
+'''
+
 PRELUDE = r'''
 // ---- S1: the grammar below the binary levels, bindings, details ---------------------------------------------------------------
 #[verifier::external_body] pub struct Unary { _p: u8 }                 // grammar::Unary (and everything below it)
@@ -211,13 +227,13 @@ def parse_logic(name, T, first, tok, bc, props, lowerT=None):
         ret='r', attrs=['#[verifier::exec_allows_no_decreases_clause]'],
         requires=[('cursor_in_range', 'old(self).tokenizer.pos() <= old(self).tokenizer.toks().len()')],
         ensures=parse_level(name, T, None, props).ensures,
-        before={'current_node.append_if_bytecode(': 'let ghost pre_node = node_view(current_node.inner);',
+        before={'current_node.append_if_bytecode(': 'proof { pre_node = node_view(current_node.inner); }',
                 'Ok((current_node, current_ast))': '''proof {
     assert(points_of([PreResolvedCodePoint::Label(label)]) =~= seq![PreResolvedCodePoint::Label(label)]);
     if pre_node is Code { assert(node_view(current_node.inner)->Code_0 =~= pre_node->Code_0 + seq![PreResolvedCodePoint::Label(label)]); }
     assert(node_view(current_node.inner) == close_label(pre_node, label));
 }'''},
-        after={'let label = self.new_label();': f'let ghost first0 = sp_{lower}(old(self).tokenizer.toks(), old(self).tokenizer.pos(), old(self).next_label)->Some_0;',
+        after={'let label = self.new_label();': f'let ghost first0 = sp_{lower}(old(self).tokenizer.toks(), old(self).tokenizer.pos(), old(self).next_label)->Some_0; let ghost mut pre_node: SNode = node_view(current_node.inner);',
                ('stmt', 'let (rhs_node, rhs_ast) =', 0): 'proof { rhs0 = P { ast: rhs_ast, end: self.tokenizer.pos(), lbl: self.next_label, details: rhs_node.details@, node: node_view(rhs_node.inner) }; }'},
         loops={0: dict(invariant=[
             ('token_stream_untouched', 'self.tokenizer.toks() == old(self).tokenizer.toks() && self.tokenizer.pos() <= self.tokenizer.toks().len() && self.bindings == old(self).bindings'),
@@ -314,8 +330,11 @@ def build():
     U.extract(CP, 'struct CelCompiler')
     U.raw(C.DERIVED, 'assumed derived impls')
     U.raw(C.VALUE_SPECS + C.TRUTHY_SPEC, 'shared vocabulary')
-    U.raw(C.TRAIT_FULL, 'CelValueDyn restated')
+    # the contract of CelValueDyn::eq is stated on the (restated) trait through a spec method: with `ensures` on the impl Verus cannot
+    # tell CelValueDyn::eq from PartialEq::eq once CelValue implements both (E0034 in its generated wrapper)
+    U.raw(C.TRAIT_FULL.replace('    fn eq(&self, rhs: &CelValue) -> CelValue;\n', '    spec fn eq_sp(&self, rhs: &CelValue) -> CelValue;\n    fn eq(&self, rhs: &CelValue) -> (r: CelValue) ensures r == self.eq_sp(rhs);\n', 1), 'CelValueDyn restated')
     U.raw(PRELUDE + MULT + ADD + REL + AND + OR, 'grammar specs')
+    U.raw(AMBIENT, 'ambient stubs without contracts')
     U.raw(C.STD_SPECS, 'assumed std specs')
     U.raw(C.AXIOMS.replace('ax::axiom_vec_bytecode_len};', 'ax::axiom_vec_bytecode_len, ax3::axiom_points_of_array1};'), 'axioms')
     U.extract(C.CE, 'impl From<SyntaxError> for CelError', fns={'from': A(ret='r', ensures=[('def', 'r == CelError::Syntax(value)')], props=('C01',))})
@@ -352,7 +371,7 @@ def build():
         'and': binop('And'), 'lt': binop('Lt'), 'le': binop('Le'), 'gt': binop('Gt'), 'ge': binop('Ge'), 'neq': binop('Ne'), 'in_': binop('In'),
     }, others='stub')
     U.extract(C.CV, 'impl CelValueDyn for CelValue', fns={
-        'eq': A(stub=True, ret='r', ensures=[('function_of_operands', 'r == op2(ByteCode::Eq, *self, *rhs_val)')]),
+        'eq': A(stub=True, attrs=['open spec fn eq_sp(&self, rhs: &CelValue) -> CelValue { op2(ByteCode::Eq, *self, *rhs) }']),
     }, others='stub', skip=('any_ref',))
     U.extract(CPR, 'impl CompiledProg', fns={
         'with_code_points': A(stub=True, ret='r', ensures=[('code_without_identifiers', 'node_view(r.inner) == SNode::Code(bytecode@) && r.details@ == Set::<Seq<char>>::empty()')]),
